@@ -149,9 +149,14 @@ fn ops(family: &str) -> Vec<Op> {
         "shared" => {
             // several threads read ONE value (shared by reference): getters, serialisation,
             // comparison, hashing, matching; and a clone mutated while the original is read
-            let a: Arc<Locale> = Arc::new("en-Latn-US-valencia-u-abc-ca-buddhist-t-de-h0-hybrid-x-a".parse().unwrap());
-            let b: Arc<Locale> = Arc::new("EN_latn_us_VALENCIA_t_de_h0_hybrid_u_abc_ca_buddhist_x_a".parse().unwrap());
-            let c: Arc<Locale> = Arc::new("ar-EG-u-nu-arab".parse().unwrap());
+            // (the values are built under the shuttle runtime: a library that touches a
+            // synchronisation primitive or a thread-local while parsing can only run there)
+            let (a, b, c) = under_shuttle(|| {
+                let a: Arc<Locale> = Arc::new("en-Latn-US-valencia-u-abc-ca-buddhist-t-de-h0-hybrid-x-a".parse().unwrap());
+                let b: Arc<Locale> = Arc::new("EN_latn_us_VALENCIA_t_de_h0_hybrid_u_abc_ca_buddhist_x_a".parse().unwrap());
+                let c: Arc<Locale> = Arc::new("ar-EG-u-nu-arab".parse().unwrap());
+                (a, b, c)
+            });
             let x = a.clone();
             v.push(("shared:to_string".into(), Box::new(move || format!("{} {}", x, x.id))));
             let x = a.clone();
@@ -195,6 +200,17 @@ fn ops(family: &str) -> Vec<Op> {
             std::process::exit(2);
         }
     }
+    v
+}
+
+/// runs `f` once under the shuttle runtime (single schedule) and hands its value out
+fn under_shuttle<T: Send + 'static>(f: impl Fn() -> T + Send + Sync + 'static) -> T {
+    let slot: Arc<std::sync::Mutex<Option<T>>> = Arc::new(std::sync::Mutex::new(None));
+    let s2 = slot.clone();
+    shuttle::Runner::new(shuttle::scheduler::DfsScheduler::new(Some(1), false), shuttle::Config::new()).run(move || {
+        *s2.lock().unwrap() = Some(f());
+    });
+    let v = slot.lock().unwrap().take().expect("the one-shot shuttle run produced no value");
     v
 }
 
